@@ -434,6 +434,75 @@ func runC10(p *core.Program, r *core.Report) {
 		}
 		c.ob("AG3", fname, "one descent site", c.fpos(fn), nrec == 1, "exactly one recursive descent is expected")
 	}
+	// ---------------- every entry of a node is examined: the three scans over children run i = 0 .. m-1
+	for _, fn := range []*ssa.Function{nsearch, ninsert, ftrav} {
+		if fn == nil {
+			continue
+		}
+		fname := p.FuncName(fn)
+		x := newPathCtx(p)
+		nScan := 0
+		seen := map[ssa.Value]bool{}
+		for _, in := range path.Instrs(fn) {
+			ia, ok := in.(*ssa.IndexAddr)
+			if !ok {
+				continue
+			}
+			ca, ok := ia.X.(*ssa.FieldAddr)
+			if !ok || !isFieldOf(ca, "node", "children") {
+				continue
+			}
+			ph, ok := ia.Index.(*ssa.Phi)
+			if !ok || seen[ph] || phiStep(ph) != +1 {
+				continue
+			}
+			seen[ph] = true
+			nScan++
+			k, isK := path.IntConst(phiInit(ph))
+			bound := guardedByHeader(ph, func(cd path.Cond) bool {
+				return cd.Op == token.LSS && cd.X == ssa.Value(ph) && (x.path(cd.Y) == "n.m" || isLoadOfField(cd.Y, "node", "m"))
+			})
+			c.ob("PT5", fname, "entries scanned from 0 while i < m", p.InstrPos(ia), isK && k == 0 && bound, "a scan over a node's entries does not start at 0 or is not bounded by i < n.m: entries are skipped")
+		}
+		c.ob("PT5", fname, "entry scans", c.fpos(fn), nScan >= 1, "no forward scan over the node's entries found")
+	}
+	// Put inserts on every path; who writes the node arrays
+	{
+		isIns := func(in ssa.Instruction) bool {
+			call, ok := in.(ssa.CallInstruction)
+			return ok && ninsert != nil && path.StaticCallee(call) == ninsert
+		}
+		mn, mx := path.MinCount(fPut, isIns), path.MaxCount(fPut, isIns)
+		c.ob("PT1", p.FuncName(fPut), "inserts exactly once on every path", c.fpos(fPut), mn == 1 && mx == 1, fmt.Sprintf("Put calls insert %d..%s times depending on the path", mn, countStr(mx)))
+		writers := map[string]bool{"insert": true, "split": true, "Put": true, "newNode": true, "New": true}
+		for _, f := range all {
+			for _, in := range path.Instrs(f) {
+				st, ok := in.(*ssa.Store)
+				if !ok {
+					continue
+				}
+				isNodeWrite := false
+				switch a := st.Addr.(type) {
+				case *ssa.FieldAddr:
+					if isFieldOf(a, "node", "m") || isFieldOf(a, "entry", "key") || isFieldOf(a, "entry", "next") || isFieldOf(a, "entry", "value") {
+						isNodeWrite = true
+					}
+				case *ssa.IndexAddr:
+					if ca, ok := a.X.(*ssa.FieldAddr); ok && isFieldOf(ca, "node", "children") {
+						isNodeWrite = true
+					}
+				}
+				if !isNodeWrite {
+					continue
+				}
+				if al, ok := rootAlloc(st.Addr); ok && !al.Heap {
+					continue // a local entry literal
+				}
+				c.ob("AG1", p.FuncName(f), "writes node entries", p.InstrPos(st), writers[f.Name()], "node entries are written by a function the rules do not cover")
+			}
+		}
+	}
+
 	// ---------------- split conserves the upper half: every entry n.children[m+i] is copied to
 	// h.children[i] for i = 0 .. m-1, unconditionally, and both halves get m = maxChildren/2
 	if fSplit := c.helper(T + "split"); fSplit != nil {
@@ -756,4 +825,21 @@ func isForwardInduction(v ssa.Value) bool {
 		return false
 	}
 	return zero == 1 && inc >= 1
+}
+
+// rootAlloc: the Alloc an address is derived from (through FieldAddr/IndexAddr), if any.
+func rootAlloc(v ssa.Value) (*ssa.Alloc, bool) {
+	for i := 0; i < 6; i++ {
+		switch x := v.(type) {
+		case *ssa.Alloc:
+			return x, true
+		case *ssa.FieldAddr:
+			v = x.X
+		case *ssa.IndexAddr:
+			v = x.X
+		default:
+			return nil, false
+		}
+	}
+	return nil, false
 }
